@@ -36,6 +36,7 @@ M = [
  ('m04_fallback_ge', 'C04', 'data.py', "if in_sligrolay_filtered.sum() > self.prms['MAX_HITS_OKTA0']:", "if in_sligrolay_filtered.sum() >= self.prms['MAX_HITS_OKTA0']:"),
  ('m04_std0', 'C04', 'data.py', "self.data.loc[in_sligrolay, 'height'].std(skipna=True)", "self.data.loc[in_sligrolay, 'height'].std(skipna=True, ddof=0)"),
  # --- C05
+ ('m05_minrange0', 'C05', 'scaler.py', "        if max_val == min_val:\n", "        if False:\n"),      # D14 back
  ('m05_idbase', 'C05', 'data.py', "id_offset+10*ind+sub_layers_id", "id_offset+ind+sub_layers_id"),
  ('m05_fill_slice', 'C05', 'data.py', "self.data.loc[to_fill, 'layer_id'] = self.data.loc[to_fill, 'group_id']", "self.data.loc[to_fill, 'layer_id'] = self.data.loc[to_fill, 'slice_id']"),
  ('m08_119', 'C08', 'layer.py', "            abics[n_id] = np.inf  # The larger the abics score, the worst the fit.", "            pass"),
